@@ -19,6 +19,9 @@ import (
 type structCase struct {
 	Spelled []string // presentation spelling of each label, in order
 	FQ      bool     // with trailing dot
+	// NoRootPrev: the generator left out "PrevLabel on the root name" because the known finding
+	// prevlabel-root is listed and still reproduces (only ever set for the root name)
+	NoRootPrev bool `json:",omitempty"`
 }
 
 func (c structCase) text() string {
@@ -103,7 +106,15 @@ func checkStruct(c structCase) error {
 			return pbt.Errf("SplitDomainName(%q)[%d]=%q does not denote wire label %q", s, i, sd[i], wire[i])
 		}
 	}
-	if k > 0 {
+	if k == 0 {
+		// the root name has no label: stepping forward from its only offset ends at once ...
+		if ni, end := dns.NextLabel(s, 0); !end {
+			return pbt.Errf("NextLabel(%q,0)=%d,end=false want end (the root name has no label)", s, ni)
+		}
+	}
+	// ... and stepping backwards finds no label start either (n = 0 is the end of the text by
+	// definition, every n >= 1 overshoots) - the general rule below with k = 0
+	if k > 0 || !c.NoRootPrev {
 		for n := 0; n <= k+2; n++ {
 			i, st := dns.PrevLabel(s, n)
 			var wi int
@@ -117,9 +128,11 @@ func checkStruct(c structCase) error {
 				wi, wst = 0, true
 			}
 			if i != wi || st != wst {
-				return pbt.Errf("PrevLabel(%q,%d)=%d,%v want %d,%v", s, n, i, st, wi, wst)
+				return pbt.Errf("PrevLabel(%q,%d)=%d,%v want %d,%v (the name has %d labels)", s, n, i, st, wi, wst, k)
 			}
 		}
+	}
+	if k > 0 {
 		for i := range starts {
 			ni, end := dns.NextLabel(s, starts[i])
 			if i == k-1 {
@@ -187,23 +200,51 @@ func genStruct(t *rapid.T) structCase {
 	// given to the structural helpers, never to CanonicalName (which maps through Unicode and is
 	// documented for presentation-form names) – see DESIGN.md §7.4.
 	rawHigh := !canonical && gen.Rarely(t, 2)
+	// styled: every octet in one of ALL its legal spellings, including the short escape of a digit
+	// (a backslash and the digit itself, `\1`, legal wherever two more digits do not follow) that
+	// gen.SpellLabel never writes; half of these names are drawn over a small digit-rich alphabet so
+	// that the short escape often stands directly before a label separator or the end of the name
+	styled := !canonical && !rawHigh && rapid.Bool().Draw(t, "styled")
+	if styled && rapid.Bool().Draw(t, "digitrich") {
+		n = digitRichName(t, 5)
+	}
 	for _, l := range n {
 		switch {
 		case canonical:
 			c.Spelled = append(c.Spelled, wm.EscLabel(l))
 		case rawHigh:
 			c.Spelled = append(c.Spelled, gen.SpellLabelRaw(t, l))
+		case styled:
+			c.Spelled = append(c.Spelled, spellStyled(l, rapid.Uint64().Draw(t, "style"), true))
 		default:
 			c.Spelled = append(c.Spelled, gen.SpellLabel(t, l))
 		}
+	}
+	if len(c.Spelled) == 0 && pbt.Known(findPrevRoot) {
+		pbt.Excluded(findPrevRoot)
+		c.NoRootPrev = true
 	}
 	return c
 }
 
 // bounded-exhaustive: all names of at most n units over the unit alphabet
-var units = []string{"a", "A", "1", `\\`, `\.`, `\065`, `\046`, `\000`, "é"}
+// `\1` is the short escape of a digit: a backslash and ONE digit, read as the escape of that single
+// octet unless two more digits follow. With the unit "1" behind it the enumeration also holds the
+// two-digit form `\11` (octets '1','1') directly before a separator and before the end, and the
+// three-digit form `\111` (one octet, 'o'); the wire labels are read from the text, not from the units.
+var units = []string{"a", "A", "1", `\\`, `\.`, `\065`, `\046`, `\000`, "é", `\1`}
 
 func eachSmallName(maxUnits int, emit func(structCase)) {
+	eachSmallNameOver(units, maxUnits, func(c structCase) {
+		if len(c.Spelled) == 0 && pbt.Known(findPrevRoot) {
+			pbt.Excluded(findPrevRoot)
+			c.NoRootPrev = true
+		}
+		emit(c)
+	})
+}
+
+func eachSmallNameOver(units []string, maxUnits int, emit func(structCase)) {
 	emit(structCase{FQ: true}) // root
 	var rec func(labels []string, curr string, used int)
 	rec = func(labels []string, curr string, used int) {
@@ -235,6 +276,47 @@ type pairCase struct {
 	FQ   bool     // both names equally qualified (precondition of every caller in the library)
 	Raw  bool     // octets >= 0x80 are written raw (as typed UTF-8) instead of \DDD: they compare octet for octet
 	All  bool     `json:",omitempty"` // every octet is written raw except dot and backslash (a name a program put together)
+	// Spelled: TA and TB hold the presentation spelling of each label of the two names (any legal
+	// spelling of every octet: raw, \c, \DDD, the short escape \d of a digit); A and B are ignored,
+	// the wire labels are read from the text by the harness's own unescaper
+	Spelled bool     `json:",omitempty"`
+	TA, TB  []string `json:",omitempty"`
+}
+
+func joinSpelled(labels []string, fq bool) string {
+	if len(labels) == 0 {
+		return "."
+	}
+	s := strings.Join(labels, ".")
+	if fq {
+		s += "."
+	}
+	return s
+}
+
+// unescLabels reads each spelled label with the harness's unescaper; ok is false when one of them
+// is not exactly one valid label (outside the domain)
+func unescLabels(spelled []string) (n wm.Name, ok bool) {
+	for _, sp := range spelled {
+		l, fq, err := wm.UnescName(sp)
+		if err != nil || fq || len(l) != 1 {
+			return nil, false
+		}
+		n = append(n, l[0])
+	}
+	return n, true
+}
+
+// mixedSpelling: among the labels the two names share (counted from the right, by the wire
+// labels) there is one whose two texts differ in more than the case of ASCII letters - one label
+// written in two spellings (`\a` and `a`, `\097` and `a`, `\065` and `a`)
+func mixedSpelling(ta, tb []string, shared int) bool {
+	for i := 1; i <= shared; i++ {
+		if lowerASCII(ta[len(ta)-i]) != lowerASCII(tb[len(tb)-i]) {
+			return true
+		}
+	}
+	return false
 }
 
 func render(n wm.Name, fq bool) string {
@@ -299,10 +381,21 @@ func commonSuffix(a, b wm.Name) int {
 
 func checkPair(c pairCase) error {
 	a, b := wm.Name(c.A), wm.Name(c.B)
+	if c.Spelled {
+		var oka, okb bool
+		a, oka = unescLabels(c.TA)
+		b, okb = unescLabels(c.TB)
+		if !oka || !okb {
+			return nil // outside the domain (generators never do this)
+		}
+	}
 	if !c.FQ && (len(a) == 0 || len(b) == 0) {
 		c.FQ = true // the root has no unqualified spelling
 	}
 	sa, sb := render(a, c.FQ), render(b, c.FQ)
+	if c.Spelled {
+		sa, sb = joinSpelled(c.TA, c.FQ), joinSpelled(c.TB, c.FQ)
+	}
 	if c.Raw {
 		sa, sb = renderRaw(a, c.FQ), renderRaw(b, c.FQ)
 	}
@@ -314,6 +407,19 @@ func checkPair(c pairCase) error {
 	pbt.Note([]byte(sa+"|"+sb), want >= 1 && differ, fmt.Sprintf("common=%d", min(want, 3)), fmt.Sprintf("differ=%v", differ))
 	if want >= 1 && differ {
 		pbt.Sample("related", sa+" | "+sb)
+	}
+	if c.Spelled {
+		if strings.Contains(sa+sb, `\`) {
+			pbt.Class("spelled-with-escape")
+		}
+		if hasShortDigitEscape(sa) || hasShortDigitEscape(sb) {
+			pbt.Class("short-digit-escape")
+			pbt.Sample("short-digit-escape", sa+" | "+sb)
+		}
+		if mixedSpelling(c.TA, c.TB, want) {
+			pbt.Class("one-label-two-spellings")
+			pbt.Sample("one-label-two-spellings", sa+" | "+sb)
+		}
 	}
 	if got := dns.CompareDomainName(sa, sb); got != want {
 		return pbt.Errf("CompareDomainName(%q,%q)=%d want %d", sa, sb, got, want)
@@ -448,10 +554,22 @@ type originCase struct {
 	Rel      [][]byte // 1.. labels, relative
 	Origin   [][]byte // 0.. labels
 	OriginFQ bool
+	// Spelled: TRel and TOrg hold the presentation spelling of each label (any legal spelling of
+	// every octet, see pairCase); Rel and Origin are ignored
+	Spelled    bool     `json:",omitempty"`
+	TRel, TOrg []string `json:",omitempty"`
 }
 
 func checkOrigin(c originCase) error {
 	rel, org := wm.Name(c.Rel), wm.Name(c.Origin)
+	if c.Spelled {
+		var okr, oko bool
+		rel, okr = unescLabels(c.TRel)
+		org, oko = unescLabels(c.TOrg)
+		if !okr || !oko {
+			return nil // outside the domain (generators never do this)
+		}
+	}
 	if len(rel) == 0 {
 		return nil
 	}
@@ -460,8 +578,18 @@ func checkOrigin(c originCase) error {
 	}
 	srel := render(rel, false)
 	sorg := render(org, c.OriginFQ)
+	if c.Spelled {
+		srel, sorg = joinSpelled(c.TRel, false), joinSpelled(c.TOrg, c.OriginFQ)
+	}
+	sorgFQ := sorg // the origin fully qualified
+	if !c.OriginFQ {
+		sorgFQ += "."
+	}
 	esc := strings.Contains(srel+sorg, `\`)
 	pbt.Note([]byte(srel+"|"+sorg), esc, fmt.Sprintf("originfq=%v", c.OriginFQ), fmt.Sprintf("originlabels=%d", min(len(org), 3)))
+	if hasShortDigitEscape(srel) || hasShortDigitEscape(sorg) {
+		pbt.Class("short-digit-escape")
+	}
 	abs := dnsutil.AddOrigin(srel, sorg)
 	wantAbs := srel + "." + sorg
 	if len(org) == 0 {
@@ -479,8 +607,8 @@ func checkOrigin(c originCase) error {
 		for i := 0; i < len(b); i++ {
 			if b[i] == '\\' {
 				i++ // an escaped character keeps its spelling (\097 is digits, not a letter)
-				if i+2 < len(b) && b[i] >= '0' && b[i] <= '9' {
-					i += 2
+				if i+2 < len(b) && isDig(b[i]) && isDig(b[i+1]) && isDig(b[i+2]) {
+					i += 2 // \DDD; a backslash with fewer than three digits escapes one octet
 				}
 				continue
 			}
@@ -498,21 +626,33 @@ func checkOrigin(c originCase) error {
 			return pbt.Errf("TrimDomainName(%q,%q)=%q want %q (the name in another letter case)", swap(abs), sorg, back, swap(srel))
 		}
 		if len(org) > 0 {
-			if tr := dnsutil.TrimDomainName(render(org, true), other); tr != "@" {
-				return pbt.Errf("TrimDomainName(%q,%q)=%q want @", render(org, true), other, tr)
+			if tr := dnsutil.TrimDomainName(sorgFQ, other); tr != "@" {
+				return pbt.Errf("TrimDomainName(%q,%q)=%q want @", sorgFQ, other, tr)
 			}
 		}
 	}
 	// the other direction: abs (fully qualified) under origin
-	full := render(append(rel.Clone(), org...), true)
+	full := srel + "."
+	if len(org) > 0 {
+		full += sorgFQ
+	}
 	tr := dnsutil.TrimDomainName(full, sorg)
 	again := dnsutil.AddOrigin(tr, sorg)
 	if dns.Fqdn(again) != full {
-		return pbt.Errf("AddOrigin(TrimDomainName(%q,%q)=%q,%q)=%q want %q", full, sorg, tr, sorg, again, full)
+		return pbt.Errf("AddOrigin(TrimDomainName(%q,%q)=%q,%q)=%q, fully qualified %q, want %q", full, sorg, tr, sorg, again, dns.Fqdn(again), full)
+	}
+	// the same name written without its final dot (TrimDomainName qualifies its argument itself):
+	// taking the origin off and putting it back gives the name again. Only the round trip is
+	// asserted, not what the intermediate text looks like (the statement says "inverse").
+	unq := full[:len(full)-1]
+	tr = dnsutil.TrimDomainName(unq, sorg)
+	again = dnsutil.AddOrigin(tr, sorg)
+	if dns.Fqdn(again) != full {
+		return pbt.Errf("AddOrigin(TrimDomainName(%q,%q)=%q,%q)=%q, fully qualified %q, want %q", unq, sorg, tr, sorg, again, dns.Fqdn(again), full)
 	}
 	// the apex maps to "@" and back
 	if len(org) > 0 {
-		apex := render(org, true)
+		apex := sorgFQ
 		if tr := dnsutil.TrimDomainName(apex, sorg); tr != "@" {
 			return pbt.Errf("TrimDomainName(%q,%q)=%q want @", apex, sorg, tr)
 		}
